@@ -71,14 +71,40 @@ def vsFor (vss : List VirtualService) (hostname : String) : Option VirtualServic
   | some v => some v
   | none => (longestStr (matchingWildcards vss hostname)).bind (oldestWithHost vss)
 
+/-- The VirtualService that answers for a service hostname on this proxy: among the VirtualServices
+    listing the MOST SPECIFIC host for it (the hostname itself if any lists it, else the longest matching
+    wildcard host), the oldest one that has a rule for this proxy; none -> the service's default route. -/
+def vsChoice (c : Ctx) (vss : List VirtualService) (hostname : String) : Option VirtualService :=
+  let exact := vss.filter (fun v => v.hosts.any (fun h => !isWildcarded h && lower h == hostname))
+  if !exact.isEmpty then exact.find? (vsApplies c)
+  else match longestStr (matchingWildcards vss hostname) with
+    | some h => (vss.filter (fun v => v.hosts.contains h)).find? (vsApplies c)
+    | none => none
+
+def decideFor (re : Regex) (c : Ctx) (m : Mesh) (s : MeshSvc) (req : Request) : Decision :=
+  match vsChoice c m.vss s.host with
+  | some vs => vsSpec re c vs req
+  | none => .forward [(subsetKey "" s.host c.listenPort, 1)]
+
 def meshSpec (re : Regex) (c : Ctx) (m : Mesh) (req : Request) : Decision :=
-  let a := lower req.authority
+  let a := lower (stripPort req.authority)    -- the outbound listener already fixes the port
   match (m.svcs.filter (fun s => s.ports.contains c.listenPort)).find?
       (fun s => (svcNames s m.proxyDomain).any (fun n => lower n == a)) with
   | none => .forward [("PassthroughCluster", 1)]   -- catch-all virtual host (outboundTrafficPolicy ALLOW_ANY)
-  | some s =>
-    match vsFor m.vss s.host with
-    | some vs => if vsApplies c vs then vsSpec re c vs req else .forward [(subsetKey "" s.host c.listenPort, 1)]
-    | none => .forward [(subsetKey "" s.host c.listenPort, 1)]
+  | some s => decideFor re c m s req
+
+/-- Contest-aware form used by stream `rds`: an authority that is the FQDN (or absolute FQDN) of a service
+    addresses that service even when it is also an abbreviation or VIP of another one; otherwise a name
+    claimed by several services is CONTESTED and the spec is silent (`none`); otherwise as `meshSpec`. -/
+def meshSpecC (re : Regex) (c : Ctx) (m : Mesh) (req : Request) : Option Decision :=
+  let a := lower (stripPort req.authority)
+  let on := m.svcs.filter (fun s => s.ports.contains c.listenPort)
+  match on.find? (fun s => lower s.host == a || lower (s.host ++ ".") == a) with
+  | some s => some (decideFor re c m s req)
+  | none =>
+    match on.filter (fun s => (svcNames s m.proxyDomain).any (fun n => lower n == a)) with
+    | [] => some (.forward [("PassthroughCluster", 1)])
+    | [s] => some (decideFor re c m s req)
+    | _ => none
 
 end IstioModel.C12
